@@ -1,5 +1,5 @@
 (* stdin: "<id> <bits> <t0> <program>"  program: threads '|', ops ',' :
-   E<i> R<n> I<i> Z S G<i> F<b>-<e> (also L, P) C A<sec>.
+   E<i> R<n> I<i> Z S G<i> F<b>-<e> (also L, P) C A<sec> W<+-sec> (calendar clock step).
    Prints every outcome the model admits over all schedules, blocks numbered by first appearance, plus
    whether some schedule reaches a stale retire stamp / a read of a freed table, and the end-of-life check. *)
 let parse_op (o : string) : op =
@@ -11,7 +11,7 @@ let parse_op (o : string) : op =
   match o.[0] with
   | 'E' -> OEnsure (arg ()) | 'R' -> OReserve (arg ()) | 'I' -> OIndex (arg ()) | 'Z' -> OSize | 'S' -> OSnap
   | 'G' -> OSnapGet (arg ()) | 'F' | 'L' | 'P' -> let (a, b) = two () in OForEach (a, b)
-  | 'C' -> OGc | 'A' -> OAdv (arg ())
+  | 'C' -> OGc | 'A' -> OAdv (arg ()) | 'W' -> OStep (arg ())
   | _ -> failwith ("bad op " ^ o)
 
 let show_outcome (rs : res list list) : string =
